@@ -56,6 +56,8 @@ def lhs_shapes(N):
         "and-lowmask": lambda cl, x, y, K: x & ((1 << h) - 1),
         "and-k": lambda cl, x, y, K: x & K[1],
         "zext-and-mask": lambda cl, x, y, K: cl.ZeroExt(h, x) & ((1 << N) - 1),
+        "zext-and-narrowmask": lambda cl, x, y, K: cl.ZeroExt(h, x) & ((1 << (N - 1)) - 1),
+        "zext-add1-and-narrowmask": lambda cl, x, y, K: cl.ZeroExt(h, x + 1) & ((1 << (N - 1)) - 1),
         "shl1": lambda cl, x, y, K: x << 1,
         "shl-k": lambda cl, x, y, K: x << K[1],
         "shl-h": lambda cl, x, y, K: x << h,
@@ -111,6 +113,54 @@ def build_constraint(cl, N, name, x, y, K):
     return _cmp(cl, op, lhs, rhs) if side == "l" else _cmp(cl, op, rhs, lhs)
 
 
+ADDSUB_TERMS = {"x+k": [("x", 1), ("k", 1)], "k+x": [("k", 1), ("x", 1)], "x-k": [("x", 1), ("k", -1)], "k-x": [("k", 1), ("x", -1)], "x+y": [("x", 1), ("y", 1)],
+                "x+y+k": [("x", 1), ("y", 1), ("k", 1)], "x-y": [("x", 1), ("y", -1)], "x+1+k": [("x", 1), ("1", 1), ("k", 1)]}
+
+
+def addsub_wrap_region(shape, N, zx, zy, zk, op="ULE"):
+    """the region of the known finding C25-addsub-ordered-wrap for a sum / difference under an ordered comparison with the constant c:
+    SOME step of the written sum, or of moving its other terms across the comparison (c -/+ term), wraps around in the unsigned or in the
+    signed reading.  Outside this region modular and mathematical arithmetic agree and the balancer's rule is sound: a counterexample there
+    is a different defect."""
+    terms = ADDSUB_TERMS.get(shape)
+    if terms is None:
+        return None
+    val = {"x": zx, "y": zy, "k": zk[1], "1": z3.BitVecVal(1, N)}
+    c = zk[0]
+    W = N + 4
+    ok = []
+    for ext in (lambda t: z3.ZeroExt(W - N, t), lambda t: z3.SignExt(W - N, t)):
+        lo, hi = (0, (1 << N) - 1)
+        # decide the reading by what ext does to the all-ones pattern
+        if z3.simplify(ext(z3.BitVecVal((1 << N) - 1, N))).as_signed_long() < 0:
+            lo, hi = -(1 << (N - 1)), (1 << (N - 1)) - 1
+
+        def inr(t):
+            return z3.And(t >= lo, t <= hi)
+
+        acc = None
+        for name, sg in terms:                      # the sum as written
+            t = ext(val[name])
+            acc = (t if sg > 0 else -t) if acc is None else (acc + t if sg > 0 else acc - t)
+            ok.append(inr(acc))
+        # the balancer also queues an implicit assumption about the whole sum (sum >= 0 for ULE/ULT, sum <= max for UGE/UGT, the signed
+        # extremes for the signed comparisons) and moves the same terms across it
+        m = (1 << N) - 1
+        assumed = {"ULE": 0, "ULT": 0, "UGE": m, "UGT": m, "SLE": 1 << (N - 1), "SLT": 1 << (N - 1), "SGE": m >> 1, "SGT": m >> 1}.get(op)
+        for const in [c] + ([z3.BitVecVal(assumed, N)] if assumed is not None else []):
+            acc = ext(const)
+            for name, sg in terms:                  # every term moved across: c - (+t), c + (-t)
+                if name == "x":
+                    continue
+                t = ext(val[name])
+                acc = acc - t if sg > 0 else acc + t
+                ok.append(inr(acc))
+        for name, sg in terms:                      # k - x <op> c is also read as x <op'> k - c
+            if name != "x":
+                ok.append(inr(ext(val[name]) - ext(c)))
+    return z3.Not(z3.And(*ok))
+
+
 def obligations(tier):
     quick = tier == "quick"
     out = []
@@ -128,8 +178,8 @@ def obligations(tier):
                         if quick and var == "bvs":
                             # quick tier: the ordered comparisons alternate between shapes (every rule still meets an upper-bound,
                             # a lower-bound, a signed and a reversed comparison); the thorough tier runs all of them on every shape
-                            allowed = {("ULE", "l"), ("SGE", "l"), ("eq", "l"), ("ne", "l")} if si_ % 2 == 0 else \
-                                      {("UGE", "l"), ("SLT", "l"), ("ULE", "r"), ("eq", "l"), ("ne", "l")}
+                            allowed = {("ULE", "l"), ("UGE", "l"), ("eq", "l"), ("SGE", "l"), ("ne", "l")} if si_ % 2 == 0 else \
+                                      {("ULE", "l"), ("UGE", "l"), ("eq", "l"), ("SLT", "l"), ("ULE", "r")}
                             if (op, side) not in allowed:
                                 continue
                         out.append((f"c2si:{var}:{N}:c|{shape}|{op}|{side}",
@@ -231,9 +281,17 @@ def run_obligation(oid, params, tier):
         zc = claripy.backends.z3.convert(c)
         fails = []
         base = z3.And(zc, *dom)
+        parts = name.split("|")
+        # (with the constant on the left the comparison is mirrored before it is balanced)
+        mirror = {"ULE": "UGE", "ULT": "UGT", "UGE": "ULE", "UGT": "ULT", "SLE": "SGE", "SLT": "SGT", "SGE": "SLE", "SGT": "SLT"}
+        region = addsub_wrap_region(parts[1], N, zx, zy, zk, parts[2] if parts[3] == "l" else mirror.get(parts[2], parts[2])) \
+            if parts[0] == "c" and parts[2] not in ("eq", "ne") else None
+        kr = {"C25-addsub-ordered-wrap": region} if region is not None else None
         if not sat:
-            return [Fail("sat-flag", f"constraint_to_si({c!r:.160}) reports unsatisfiable, but an assignment satisfies it", base,
-                         known_key="sat-flag", classify=classify)]
+            f = Fail("sat-flag", f"constraint_to_si({c!r:.160}) reports unsatisfiable, but an assignment satisfies it", base,
+                     known_key="sat-flag", classify=classify)
+            f.known_region = kr
+            return [f]
         bads = []
         for old, new, av in repl:
             zo = claripy.backends.z3.convert(old)
@@ -245,6 +303,7 @@ def run_obligation(oid, params, tier):
         if bads:
             fails.append(Fail("bound", f"constraint_to_si({c!r:.160}) bounds {[(repr(o)[:40], repr(a)[:60]) for o, _, a in repl]} "
                                        f"exclude the value of a satisfying assignment", z3.And(base, z3.Or(*bads)), known_key="bound", classify=classify))
+            fails[-1].known_region = kr
         return fails
 
     def make_case(vals, f):
